@@ -56,6 +56,7 @@ REQUIRED_THEOREMS = [
     "padFull1", "padFull2_x", "padFull2_y", "padFull3_x", "padFull2_corner",
     "bc_mode_approaches_imposed_condition", "bc_mode_approaches_imposed_condition2",
     "bc_mode_approaches_imposed_condition2_y", "bc_mode_approaches_imposed_condition3",
+    "bc_mode_approaches_imposed_condition3_y", "bc_mode_approaches_imposed_condition3_z",
     "bc_mode_approaches_imposed_condition_eps", "bc_mode_approaches_imposed_condition2_eps",
     "bc_mode_corner_square2", "bc_mode_corner_square_value_on_face", "bc_mode_corner_square_misses_imposed_value",
     "periodic_seam_both2_eps", "periodic_seam_all3_eps", "domain_corner2_eps", "boundary_strip_nearest2_eps",
